@@ -378,6 +378,9 @@ Definition head_ok (l : language) (ts : list token) (hk : head_kind) (out : list
   | HFunc pre hd nm_off hend_off => ts = pre ++ hd ++ out /\ fhead l hd nm_off hend_off
   | HCtrl kw words cond =>
       ts = kw :: words ++ cond ++ out /\ is_keyword kw = true /\ (cond = [] \/ groups cond)
+  | HCb a tail d =>
+      ts = a ++ tail ++ out /\ is_jsts l = true /\ a <> [] /\ open_prefix a d /\
+      (forall x, is_lparen (last a x) = true \/ is_symbol (last a x) s_comma = true) /\ cb_tail tail
   end.
 
 Lemma func_kw_split : forall l before pre fk,
@@ -560,6 +563,106 @@ Proof.
 Qed.
 
 (* ------------------------------------------------------------------------------------------------ *)
+(* 4b. the callback split                                                                            *)
+(* ------------------------------------------------------------------------------------------------ *)
+
+Lemma last_default_irrel : forall (A : Type) (a : list A) (x y : A), a <> [] -> last a x = last a y.
+Proof.
+  intros A a x y. induction a as [| z a IHa]; intros Hne; [contradiction Hne; reflexivity |].
+  destruct a as [| z' a']; [reflexivity |].
+  change (last (z' :: a') x = last (z' :: a') y). apply IHa. discriminate.
+Qed.
+
+Lemma open_walk_prefix : forall ts d0 d a0,
+  open_walk ts d0 = Some d -> open_prefix a0 d0 -> open_prefix (a0 ++ ts) d.
+Proof.
+  induction ts as [| t r IHr]; intros d0 d a0 Hw Ha0.
+  - simpl in Hw. inversion Hw; subst d. rewrite app_nil_r. exact Ha0.
+  - cbn [open_walk] in Hw.
+    replace (a0 ++ t :: r) with ((a0 ++ [t]) ++ r) by (rewrite <- app_assoc; reflexivity).
+    destruct (is_lbrace t || is_rbrace t) eqn:Hb; [discriminate |].
+    destruct (is_lparen t) eqn:Hl.
+    + apply (IHr (S d0)); [exact Hw |]. apply op_open; assumption.
+    + destruct (is_rparen t) eqn:Hr.
+      * destruct d0 as [| d0']; [discriminate |].
+        apply (IHr d0'); [exact Hw |]. apply op_close; assumption.
+      * destruct (is_operator t s_colon) eqn:Hcol; [discriminate |].
+        apply (IHr d0); [exact Hw |]. apply op_plain; try assumption.
+        apply plain_of_flags; assumption.
+Qed.
+
+Lemma open_walk_sound : forall a d, open_walk a 0 = Some d -> open_prefix a d.
+Proof.
+  intros a d H. change a with ([] ++ a). apply (open_walk_prefix a 0 d []); [exact H | apply op_nil].
+Qed.
+
+Lemma cb_tail_b_sound : forall ts, cb_tail_b ts = true -> cb_tail ts.
+Proof.
+  intros ts H. unfold cb_tail_b in H.
+  destruct ts as [| fk gs]; [discriminate |].
+  apply orb_true_iff in H. destruct H as [H | H].
+  - apply andb_true_iff in H. destruct H as [Hfk Hgs].
+    apply cbt_function; [exact Hfk | apply groups_b_sound; exact Hgs].
+  - remember (fk :: gs) as ts eqn:Ets. clear Ets fk gs.
+    destruct (rev ts) as [| arrow rgs] eqn:Hrev; [discriminate |].
+    apply andb_true_iff in H. destruct H as [Harrow Hgs].
+    assert (E : ts = rev rgs ++ [arrow]).
+    { rewrite <- (rev_involutive ts), Hrev. reflexivity. }
+    rewrite E. apply cbt_arrow; [apply groups_b_sound; exact Hgs | exact Harrow].
+Qed.
+
+Lemma cb_find_sound : forall fuel k pre k' d,
+  cb_find fuel k pre = Some (k', d) ->
+  open_walk (firstn k' pre) 0 = Some d /\ firstn k' pre <> [] /\
+  (is_lparen (last (firstn k' pre) (mkTok KOther [] 0 0))
+   || is_symbol (last (firstn k' pre) (mkTok KOther [] 0 0)) s_comma) = true /\
+  cb_tail_b (skipn k' pre) = true.
+Proof.
+  induction fuel as [| f IHf]; intros k pre k' d H; [discriminate |].
+  cbn [cb_find] in H.
+  remember (firstn k pre) as a eqn:Ea.
+  destruct (open_walk a 0) as [d0 |] eqn:How; [| apply IHf in H; exact H].
+  destruct a as [| x a']; [apply IHf in H; exact H |].
+  cbv iota in H.
+  match type of H with context [if ?chk then _ else _] => destruct chk eqn:Hchk end.
+  - inversion H; subst k' d0. clear H. rewrite <- Ea.
+    apply andb_true_iff in Hchk. destruct Hchk as [Hlast Htail].
+    split; [exact How |]. split; [discriminate |]. split; [exact Hlast | exact Htail].
+  - apply IHf in H. exact H.
+Qed.
+
+(* the head of a braced item as parse_items computes it: the callback split first, parse_head otherwise *)
+Lemma item_head_sound : forall l ts hk out,
+  match (if is_jsts l then
+           let '(pre, rest) := take_until_brace ts in
+           match cb_find (S (length pre)) 1 pre with
+           | Some (k, d) => Some (HCb (firstn k pre) (skipn k pre) d, rest)
+           | None => None
+           end
+         else None) with
+  | Some x => Some x
+  | None => parse_head l ts
+  end = Some (hk, out) ->
+  head_ok l ts hk out.
+Proof.
+  intros l ts hk out H.
+  destruct (is_jsts l) eqn:Hj; [| apply parse_head_sound; exact H].
+  destruct (take_until_brace ts) as [pre rest0] eqn:Htb.
+  destruct (cb_find (S (length pre)) 1 pre) as [[k d] |] eqn:Hcf; [| apply parse_head_sound; exact H].
+  inversion H; subst hk out. clear H.
+  apply take_until_brace_spec in Htb.
+  apply cb_find_sound in Hcf. destruct Hcf as (How & Hne & Hlast & Htail).
+  cbn [head_ok]. split; [| split; [| split; [| split; [| split]]]].
+  - rewrite app_assoc, firstn_skipn. exact Htb.
+  - exact Hj.
+  - exact Hne.
+  - apply open_walk_sound. exact How.
+  - intros x. rewrite (last_default_irrel _ _ x (mkTok KOther [] 0 0) Hne).
+    apply orb_true_iff in Hlast. exact Hlast.
+  - apply cb_tail_b_sound. exact Htail.
+Qed.
+
+(* ------------------------------------------------------------------------------------------------ *)
 (* 5. parse_items, parse_program                                                                     *)
 (* ------------------------------------------------------------------------------------------------ *)
 
@@ -641,21 +744,23 @@ Proof.
       apply (items_of_off_eq _ _ _ _ _ Hitems). rewrite En.
       rewrite !app_length. cbn [length]. rewrite !app_length. cbn [length]. rewrite !app_length. cbn [length]. lia. }
   (* a braced item *)
-  destruct (parse_head l ts) as [[hk rest1] |] eqn:Hph; [| discriminate].
+  match type of H with (match ?X with _ => _ end) = _ =>
+    destruct X as [[hk rest1] |] eqn:Hph; [| discriminate] end.
+  apply item_head_sound in Hph.
   destruct rest1 as [| o bm]; [discriminate |].
   destruct (is_lbrace o) eqn:Hlo; cbn [negb] in H; [| discriminate].
   match type of H with context [parse_items f l ?x bm] =>
     destruct (parse_items f l x bm) as [[ds1 [| c more]] |] eqn:Hp1; try discriminate end.
   destruct (is_rbrace c) eqn:Hrc; cbn [negb] in H; [| discriminate].
-  match type of H with context [parse_items f l ?x more] =>
-    destruct (parse_items f l x more) as [[ds2 rest3] |] eqn:Hp2; [| discriminate] end.
   apply IHf in Hp1. destruct Hp1 as (body & Ebm & Hbody).
-  apply IHf in Hp2. destruct Hp2 as (r & Emore & Hr).
-  apply parse_head_sound in Hph.
   assert (Hlbm : length bm = length body + S (length more)).
   { rewrite Ebm, app_length. reflexivity. }
-  destruct hk as [pre hd nm_off hend_off | kw words cond]; cbn [head_ok] in Hph.
+  destruct hk as [pre hd nm_off hend_off | kw words cond | a tail d]; cbn [head_ok] in Hph.
   - (* a function *)
+    cbn [negb skipn] in H.
+    match type of H with context [parse_items f l ?x more] =>
+      destruct (parse_items f l x more) as [[ds2 rest3] |] eqn:Hp2; [| discriminate] end.
+    apply IHf in Hp2. destruct Hp2 as (r & Emore & Hr).
     destruct Hph as [Ets Hfh].
     assert (Hlts : length ts = length pre + length hd + S (length bm)).
     { rewrite Ets, !app_length. cbn [length]. lia. }
@@ -672,6 +777,10 @@ Proof.
         destruct ds1; [reflexivity | discriminate].
       * apply (items_of_off_eq _ _ _ _ _ Hr). cbn [length]. lia.
   - (* a control form *)
+    cbn [negb skipn] in H.
+    match type of H with context [parse_items f l ?x more] =>
+      destruct (parse_items f l x more) as [[ds2 rest3] |] eqn:Hp2; [| discriminate] end.
+    apply IHf in Hp2. destruct Hp2 as (r & Emore & Hr).
     destruct Hph as (Ets & Hkw & Hcond).
     assert (Hlts : length ts = 1 + length words + length cond + S (length bm)).
     { rewrite Ets. cbn [length]. rewrite !app_length. cbn [length]. lia. }
@@ -688,6 +797,34 @@ Proof.
         -- apply negb_true_iff in Hc. exact Hc.
       * unfold no_throws_kw. apply Forall_forall. intros x Hx.
         rewrite forallb_forall in Hnt. apply negb_true_iff. apply Hnt. exact Hx.
+      * apply (items_of_off_eq _ _ _ _ _ Hbody). cbn [length]. lia.
+      * apply (items_of_off_eq _ _ _ _ _ Hr). cbn [length]. lia.
+  - (* a callback *)
+    destruct Hph as (Ets & Hj & Hane & Hop & Hlast & Htail).
+    assert (Hlts : length ts = length a + length tail + S (length bm)).
+    { rewrite Ets, !app_length. cbn [length]. lia. }
+    match type of H with (if negb ?chk then _ else _) = _ =>
+      destruct chk eqn:Hclose; cbn [negb] in H; [| discriminate] end.
+    apply andb_true_iff in Hclose. destruct Hclose as [Hclose Hsemi].
+    apply andb_true_iff in Hclose. destruct Hclose as [Hrp Hlen].
+    apply Nat.eqb_eq in Hlen.
+    destruct (skipn d more) as [| semi r'] eqn:Hsk; [discriminate |].
+    pose proof (firstn_skipn d more) as Hfs. rewrite Hsk in Hfs.
+    set (post := firstn d more) in *. clearbody post.
+    assert (Eskip : skipn (S d) more = r').
+    { rewrite <- Hfs, <- Hlen. apply skipn_S_app. }
+    rewrite Eskip in H.
+    match type of H with context [parse_items f l ?x r'] =>
+      destruct (parse_items f l x r') as [[ds2 rest3] |] eqn:Hp2; [| discriminate] end.
+    apply IHf in Hp2. destruct Hp2 as (r & Er' & Hr).
+    inversion H; subst ds rest3. clear H.
+    assert (Hlmore : length more = length post + S (length r')).
+    { rewrite <- Hfs, app_length. reflexivity. }
+    exists (a ++ tail ++ o :: body ++ c :: post ++ semi :: r). split.
+    + rewrite Ets, Ebm, <- Hfs, Er'. list_norm. reflexivity.
+    + apply io_cb; try assumption.
+      * rewrite Hlen. exact Hop.
+      * apply Hlast.
       * apply (items_of_off_eq _ _ _ _ _ Hbody). cbn [length]. lia.
       * apply (items_of_off_eq _ _ _ _ _ Hr). cbn [length]. lia.
 Qed.
